@@ -116,3 +116,7 @@ def exists(rng, pred):
 
 def is_bytes(s):
     return all(isinstance(x, int) and 0 <= x < 256 for x in s)
+
+
+def rep(e, n):
+    return [e] * n
